@@ -61,7 +61,7 @@ theorem G_of_diags (nroot : Nat) (st st' : PState) (hg : G T nroot st)
 theorem G_langStack (nroot : Nat) (st : PState) (l : List (Str × Str)) (hg : G T nroot st)
     (hl : ∀ e ∈ l, (settingsOf T e.1).isSome = true) :
     G T nroot { st with langStack := l } :=
-  ⟨⟨hg.flows, hg.macros, hg.envs, hg.gloss, hg.items, hl, hg.rots⟩, hg.root, hg.inFrame⟩
+  ⟨⟨hg.flows, hg.macros, hg.envs, hg.gloss, hg.items, hl, hg.rots, hg.unk⟩, hg.root, hg.inFrame⟩
 
 /-- `check_parser_lang` always names existing settings (falls back to 'en') -/
 theorem settingsOf_checkLang (hw : T.WFInv) (l : Str) :
